@@ -97,3 +97,28 @@ def kept_examples(examples, opts):
 def full_match(r, s):
     """matched in full, reading r as a Python regular expression"""
     return re.fullmatch(re.compile(r, FLAGS), s) is not None
+
+
+DIALECT_ID = {None: 0, 'perl': 0, 'portable': 1, 'grep': 2}
+_W = re.compile(r'\w', FLAGS)
+_D = re.compile(r'\d', FLAGS)
+_S = re.compile(r'\s', FLAGS)
+
+
+def char_table(strings):
+    chars = sorted({c for s in strings if s is not None for c in s})
+    return [[c, _W.match(c) is not None, _D.match(c) is not None, _S.match(c) is not None] for c in chars]
+
+
+def model_extract_op(examples, opts, form='list'):
+    """the rx.extract op for a case without sampling"""
+    if form == 'dict':
+        d = as_input(examples, 'dict')
+        items = [[k, v] for k, v in d.items()]
+    else:
+        items = [[s, 1] for s in examples]
+    o = {'strip': bool(opts.get('strip')), 'remove_empties': bool(opts.get('remove_empties')),
+         'vlf': bool(opts.get('variableLengthFrags')), 'extras': opts.get('extra_letters') or '',
+         'tag': bool(opts.get('tag')), 'dialect': DIALECT_ID[opts.get('dialect', 'portable')],
+         'max_patterns': opts.get('max_patterns'), 'min_strings': opts.get('min_strings_per_pattern', 1)}
+    return {'op': 'rx.extract', 'table': char_table(examples), 'opts': o, 'items': items}
